@@ -17,7 +17,111 @@ def leg(name, harness, bound, params=None, flags=("-fp",), what="", tiers=("quic
 
 PROPS = {}
 
+# ------------------------------------------------------------------------------------------------ program sweeps
+import itertools
+
+
+def sweep(name, harness, bound, sw, params=None, flags=("-fp",), what="", tiers=("thorough",), weight=1.0, par=4):
+    """One leg = the same harness run once per parameter set of `sw` (each explored exhaustively within the bound)."""
+    l = leg(name, harness, bound, params, flags, what + " [%d parameter sets]" % len(sw), tiers, weight)
+    l["sweep"] = sw; l["sweep_par"] = par; l["sweep_what"] = what
+    return l
+
+
+def seqs(alpha, maxlen, minlen=1):
+    out = []
+    for n in range(minlen, maxlen + 1):
+        out += [list(t) for t in itertools.product(alpha, repeat=n)]
+    return out
+
+
+def thread_programs(alpha, nthreads, maxlen, keep=None, minlen=1, ordered=False):
+    """All assignments of operation sequences (length minlen..maxlen over alpha) to nthreads threads; threads are symmetric, so
+    multisets of sequences (combinations with replacement) unless ordered."""
+    sq = seqs(alpha, maxlen, minlen)
+    it = itertools.product(sq, repeat=nthreads) if ordered else itertools.combinations_with_replacement(sq, nthreads)
+    return [list(c) for c in it if keep is None or keep(c)]
+
+
+def prog_str(threads, number=(), values=None):
+    """threads: list of lists of op strings; ops whose letter is in `number` get a unique value appended (P -> P11, P12, ... or the
+    next element of `values`)."""
+    out = []; n = 10; vi = 0
+    for t in threads:
+        ops = []
+        for o in t:
+            if o in number:
+                n += 1
+                if values:
+                    ops.append("%s%d" % (o, values[vi % len(values)])); vi += 1
+                else:
+                    ops.append("%s%d" % (o, n))
+            else:
+                ops.append(o)
+        out.append(",".join(ops))
+    return "|".join(out)
+
+
+def bq_completes(threads, cap, keep=0, fails=0):
+    """Reference model of a bounded queue with blocking push 'P' / blocking pop 'Q' / try ops: True if EVERY interleaving of the
+    atomic operations runs to completion (no thread blocked forever), so that a deadlock of the real queue is a violation."""
+    import functools
+    T = tuple(tuple(t) for t in threads)
+
+    @functools.lru_cache(maxsize=None)
+    def ok(pcs, size, fl=fails):
+        if all(pcs[i] == len(T[i]) for i in range(len(T))):
+            return True
+        moved = False
+        for i in range(len(T)):
+            if pcs[i] == len(T[i]):
+                continue
+            o = T[i][pcs[i]][0]; ns = size
+            if o == "P":
+                if size >= cap:
+                    continue
+                ns = size + 1
+            elif o == "Q":
+                if size <= 0:
+                    continue
+                ns = size - 1
+            elif o == "T":
+                ns = size + 1 if size < cap else size
+            elif o == "G":
+                ns = size - 1 if size > 0 else size
+            moved = True
+            if not ok(pcs[:i] + (pcs[i] + 1,) + pcs[i + 1:], ns, fl):
+                return False
+            if fl > 0 and ns == size + 1 and not ok(pcs[:i] + (pcs[i] + 1,) + pcs[i + 1:], size, fl - 1):   # this push throws: no item
+                return False
+        return moved
+    return ok(tuple(0 for _ in T), keep, fails)
+
+
 # ------------------------------------------------------------------------------------------------ C09
+def _c09_sweeps():
+    num = ("P", "T")
+    q32 = [{"prog": prog_str(t, num)} for t in thread_programs(["P", "G"], 3, 2)]
+    q23 = [{"prog": prog_str(t, num)} for t in thread_programs(["P", "G"], 2, 3)]
+    bq22 = [{"prog": prog_str(t, num), "cap": 1} for t in thread_programs(["P", "Q", "T", "G"], 2, 2) if bq_completes(t, 1)]
+    bq32 = [{"prog": prog_str(t, num), "cap": c} for c in (1, 2) for t in thread_programs(["P", "Q", "T", "G"], 3, 2) if bq_completes(t, c)]
+    bq31k = [{"prog": prog_str(t, num), "cap": 2, "keep": 1} for t in thread_programs(["P", "Q", "T", "G"], 3, 2) if bq_completes(t, 2, 1)]
+    npush = lambda c: sum(o in ("P", "T") for th in c for o in th)
+    bqthr = [{"prog": prog_str(t, num), "cap": 2, "throwat": k} for t in thread_programs(["P", "Q", "T", "G"], 3, 2, keep=lambda c: npush(c) >= 2 and any(o == "Q" for th in c for o in th)) if bq_completes(t, 2, 0, 1) for k in (1, 2)]
+    bqthr2 = [{"prog": prog_str(t, num), "cap": 2, "throwat": k} for t in thread_programs(["P", "Q", "T", "G"], 2, 2, keep=lambda c: npush(c) >= 2 and any(o == "Q" for th in c for o in th)) if bq_completes(t, 2, 0, 1) for k in (1, 2)]
+    qthr = [{"prog": prog_str(t, num), "throwat": k, "big": b} for b in (0, 1) for t in thread_programs(["P", "G"], 3, 2, keep=lambda c: npush(c) >= 2) for k in (1, 2)]
+    return [
+        sweep("sweep-bq-throw-2x2", "c09_queue", (2, 3), bqthr2, {"bounded": 1}, what="capacity 2, two threads, programs with a blocking pop and at least two pushes that cannot block forever even if one push fails; the first / second element copy throws (a blocked pop must be woken by the next successful push)", tiers=("quick", "thorough")),
+        sweep("sweep-bq-throw-3x2", "c09_queue", (1, 2), bqthr, {"bounded": 1}, what="same with three threads", weight=2.0),
+        sweep("sweep-q-throw", "c09_queue", (1, 2), qthr, what="concurrent_queue: programs with at least two pushes; the first / second element copy throws; small and page-sized elements"),
+        sweep("sweep-q-3x2", "c09_queue", (1, 2), q32, what="concurrent_queue: every assignment of push/try_pop sequences of length 1-2 to three threads", tiers=("quick", "thorough")),
+        sweep("sweep-q-2x3", "c09_queue", (2, 3), q23, what="concurrent_queue: every pair of push/try_pop sequences of length 1-3"),
+        sweep("sweep-q-3x2-page", "c09_queue", (1, 2), q32, {"pre": 254, "keep": 1}, what="same programs with the tickets at a page boundary and one item queued"),
+        sweep("sweep-q-3x2-big", "c09_queue", (1, 2), q32, {"big": 1}, what="same programs, one element per page"),
+        sweep("sweep-bq-2x2", "c09_queue", (2, 3), bq22, {"bounded": 1}, what="concurrent_bounded_queue capacity 1: every pair of sequences of length 1-2 over push/pop/try_push/try_pop whose reference model cannot block forever", tiers=("quick", "thorough")),
+        sweep("sweep-bq-3x2", "c09_queue", (1, 2), bq32, {"bounded": 1}, what="capacity 1 and 2: three threads, sequences of length 1-2, programs whose reference model cannot block forever", weight=2.0),
+        sweep("sweep-bq-3x2-keep", "c09_queue", (1, 2), bq31k, {"bounded": 1}, what="capacity 2 with one item queued at the start", weight=2.0),
+    ]
 PROPS["C09"] = {
     "explanation": "2-4 threads issue 1-2 queue operations each on one real concurrent_queue / concurrent_bounded_queue; every complete "
                    "history (call/return stamps) is checked by brute force against a sequential FIFO reference (std::deque with capacity), "
@@ -39,7 +143,7 @@ PROPS["C09"] = {
         leg("bq-abort-push", "c09_queue", (1, 2), {"prog": "P1,P2|A|G", "bounded": 1, "cap": 1, "keep": 0}, what="abort wakes a blocked push"),
         leg("bq-setcap", "c09_queue", (2, 2), {"prog": "P1,P2|C2,G", "bounded": 1, "cap": 1}, what="capacity raised while a push may be blocked"),
         leg("bq-big", "c09_queue", (2, 2), {"prog": "P1,P2|Q,G|T3", "bounded": 1, "cap": 2, "big": 1}, what="bounded queue with one element per page"),
-    ],
+    ] + _c09_sweeps(),
 }
 
 # ------------------------------------------------------------------------------------------------ C08
@@ -57,6 +161,15 @@ def _c08():
         legs.append(leg("%s-4t" % kind, "c08_mutex", (1, 2), {"kind": kind, "prog": "W|R|R|U"}, flags=("-fp", "-hb"), what="%s: four threads" % kind))
     for kind, pr in [("spin", "W|W|t,W"), ("queuing", "W|W|t,W"), ("mutex", "W|W|W"), ("spin_rw", "W|R|U"), ("queuing_rw", "W|R|U"), ("rw", "W|R|U"), ("queuing_rw", "D|W|R")]:
         legs.append(leg("%s-tso-%s" % (kind, pr.replace("|", "").replace(",", "")), "c08_mutex@tso", (2, 2), {"kind": kind, "prog": pr}, flags=("-fp", "-hb", "-tso"), what="%s: %s under x86-TSO store buffers" % (kind, pr)))
+    for kind in ("spin", "queuing", "mutex"):
+        sw = [{"prog": prog_str(t)} for t in thread_programs(["W", "t"], 3, 2)]
+        legs.append(sweep("sweep-%s-3x2" % kind, "c08_mutex", (1, 2), sw, {"kind": kind}, flags=("-fp", "-hb"), what="%s: every assignment of lock / try_lock section sequences of length 1-2 to three threads" % kind))
+    for kind in ("spin_rw", "queuing_rw", "rw"):
+        sw = [{"prog": prog_str(t)} for t in thread_programs(["W", "R", "U", "D", "t", "r"], 3, 1)]
+        legs.append(sweep("sweep-%s-3x1" % kind, "c08_mutex", (1, 2), sw, {"kind": kind}, flags=("-fp", "-hb"), what="%s: every multiset of three sections out of write / read / upgrade / downgrade / try-write / try-read" % kind,
+                          tiers=("quick", "thorough") if kind == "queuing_rw" else ("thorough",), weight=3.0 if kind == "queuing_rw" else 1.5))
+        sw = [{"prog": prog_str(t)} for t in thread_programs(["W", "R", "U", "D"], 2, 2)]
+        legs.append(sweep("sweep-%s-2x2" % kind, "c08_mutex", (2, 3), sw, {"kind": kind}, flags=("-fp", "-hb"), what="%s: every pair of two-section sequences over write / read / upgrade / downgrade" % kind, weight=1.5))
     return legs
 PROPS["C08"] = {
     "explanation": "2-4 threads run short lock programs (write/read sections, try-acquire, upgrade, downgrade) on one real mutex of each kind; "
@@ -68,6 +181,27 @@ PROPS["C08"] = {
 }
 
 # ------------------------------------------------------------------------------------------------ C13
+def _c13_sweeps():
+    tp = thread_programs(["P", "G"], 3, 2)
+    hi = [{"prog": prog_str(t, ("P",), [110, 120, 130, 140, 150, 160]), "pre": "50,30"} for t in tp]
+    mid = [{"prog": prog_str(t, ("P",), [45, 25, 65, 35, 15, 55]), "pre": "50,30"} for t in tp]
+    tie = [{"prog": prog_str(t, ("P",), [50, 51, 52, 30, 31, 53]), "pre": "50,30"} for t in tp]
+    emp = [{"prog": prog_str(t, ("P",), [20, 40, 10, 30, 60, 50]), "pre": ""} for t in tp]
+    tp4 = thread_programs(["E", "M", "G"], 4, 1)
+    four = [{"prog": prog_str(t, ("E", "M"), [45, 65, 25, 55]), "pre": "50,30"} for t in tp4]
+    thr = [{"prog": prog_str(t, ("P",), [45, 65, 25, 55, 35, 15]), "pre": "50", "throwat": k} for t in thread_programs(["P", "G"], 3, 2, keep=lambda c: sum(o == "P" for th in c for o in th) >= 2) for k in (1, 2)]
+    heaps = {3: "100,80,70", 4: "100,80,70,30", 5: "100,80,70,30,40", 6: "100,80,70,30,40,60", 7: "100,80,70,30,40,60,50"}
+    hp = lambda sizes: [{"prog": prog_str(t, ("P",), [90, 10, 85, 20, 75, 65]), "pre": heaps[n]} for n in sizes for t in tp]
+    return [
+        sweep("sweep-3x2-heap46", "c13_pq", (1, 2), hp((4, 6)), what="same programs on heaps of 4 and 6 elements (a batch mixes pushes that are not yet heapified with a pop that re-heapifies: sibling / last-node index boundaries)", tiers=("quick", "thorough")),
+        sweep("sweep-3x2-heap357", "c13_pq", (1, 2), hp((3, 5, 7)), what="same programs on heaps of 3, 5 and 7 elements"),
+        sweep("sweep-3x2-above", "c13_pq", (1, 2), hi, what="every assignment of push/try_pop sequences of length 1-2 to three threads; pushed priorities above the initial contents", tiers=("quick", "thorough")),
+        sweep("sweep-3x2-between", "c13_pq", (1, 2), mid, what="same programs, pushed priorities interleaved with the initial contents", tiers=("quick", "thorough")),
+        sweep("sweep-3x2-ties", "c13_pq", (1, 2), tie, what="same programs, pushed priorities tie with the initial contents"),
+        sweep("sweep-3x2-empty", "c13_pq", (1, 2), emp, what="same programs on an empty queue"),
+        sweep("sweep-4x1", "c13_pq", (1, 2), four, what="four threads, one emplace / push(&&) / try_pop each (larger aggregator batches)"),
+        sweep("sweep-3x2-throw", "c13_pq", (1, 2), thr, what="programs with at least two pushes; the first or the second element copy throws"),
+    ]
 PROPS["C13"] = {
     "explanation": "2-3 threads push/emplace/try_pop on one real concurrent_priority_queue (which operations share an aggregator batch is decided by the "
                    "interleaving); every history is checked by brute force against a multiset reference (a pop must return a maximum at its linearization point, "
@@ -81,9 +215,24 @@ PROPS["C13"] = {
         leg("throw1", "c13_pq", (2, 3), {"pre": "50", "prog": "P90|P91|G", "throwat": 1}, what="first element copy throws"),
         leg("throw2", "c13_pq", (2, 3), {"pre": "50", "prog": "P90|P91|G", "throwat": 2}, what="second element copy throws"),
         leg("throw-batch", "c13_pq", (2, 2), {"pre": "50,70", "prog": "P90,G|P91|G", "throwat": 1}, what="throwing push batched with pops"),
-    ],
+    ] + _c13_sweeps(),
 }
 # ------------------------------------------------------------------------------------------------ C10
+def _c10_sweeps():
+    one = ["I3", "E3", "F3", "A3", "R3", "X3", "J3", "M3", "C3"]
+    k31 = [{"prog": prog_str(t), "prekeys": pk} for pk in ("", "3") for t in thread_programs(one, 3, 1)]
+    k22 = [{"prog": prog_str(t), "prekeys": pk} for pk in ("", "3") for t in thread_programs(["I3", "E3", "F3", "X3", "A3"], 2, 2)]
+    two = ["I3", "I259", "E3", "E259", "F3", "F259"]
+    pc = [{"prog": prog_str(t), "prekeys": pk} for pk in ("", "3", "3,259") for t in thread_programs(two, 3, 1)]
+    pcg = [{"prog": prog_str(t), "prekeys": pk, "pre": 254} for pk in ("", "3") for t in thread_programs(two, 3, 1)]
+    ch = [{"prog": prog_str(t), "prekeys": pk, "hash": "const"} for pk in ("", "5", "5,9") for t in thread_programs(["I5", "I9", "E5", "E9", "F5", "F9"], 3, 1)]
+    return [
+        sweep("sweep-1key-3x1", "c10_chm", (1, 2), k31, what="one key, absent or present: every multiset of three single operations out of insert / erase / find / count / emplace / the three accessor kinds / erase by accessor", tiers=("quick", "thorough")),
+        sweep("sweep-1key-2x2", "c10_chm", (1, 2), k22, what="one key: every pair of two-operation sequences over insert / erase / find / write accessor / erase by accessor"),
+        sweep("sweep-split-3x1", "c10_chm", (1, 2), pc, what="keys 3 and 259 (parent and child bucket of a split): every multiset of three insert/erase/find operations, from three initial contents"),
+        sweep("sweep-split-grow", "c10_chm", (1, 2), pcg, {}, what="same with the table one insert below the 255-element growth threshold (segment enable + lazy rehash inside the window)", weight=2.0),
+        sweep("sweep-const-hash", "c10_chm", (1, 2), ch, what="all keys in one bucket chain (constant hash)"),
+    ]
 PROPS["C10"] = {
     "explanation": "2-3 threads insert/emplace/find/count/erase (by key and by accessor) on one real concurrent_hash_map with identity, constant and low-bit "
                    "hashers, on keys chosen as parent/child buckets of a split and on tables pre-filled to a growth threshold; every history (plus the sequential "
@@ -101,10 +250,22 @@ PROPS["C10"] = {
         leg("low2-hash", "c10_chm", (2, 2), {"prog": "I4,I8|E12|C4,C8", "hash": "low2", "prekeys": "12"}, what="hash keeps only two low bits"),
         leg("emplace-count", "c10_chm", (2, 2), {"prog": "M7|M7|C7,E7"}, what="emplace twice, count, erase"),
         leg("first-insert", "c10_chm", (2, 2), {"prog": "I0|I1|I2"}, what="three first inserts into an empty table (first segment enable)"),
-    ],
+    ] + _c10_sweeps(),
 }
 
 # ------------------------------------------------------------------------------------------------ C11
+def _c11_sweeps():
+    alpha = ["B", "E", "G2", "G3", "D2", "L5"]
+    tp = thread_programs(alpha, 3, 1)
+    sw = [{"prog": prog_str(t), "pre": pre} for pre in (0, 1, 2, 3, 7, 8, 15, 16) for t in tp]
+    tp2 = thread_programs(["B", "G2", "G5", "L9"], 2, 2)
+    sw2 = [{"prog": prog_str(t), "pre": pre} for pre in (0, 1, 6, 14) for t in tp2]
+    thr = [{"prog": prog_str(t), "pre": pre, "throwat": k} for pre in (0, 1, 7) for t in thread_programs(["B", "G2", "G3"], 3, 1) for k in (1, 2, 3)]
+    return [
+        sweep("sweep-3x1", "c11_vector", (1, 2), sw, what="every multiset of three growth calls out of push_back / emplace_back / grow_by(2|3,value) / grow_by(2) / grow_to_at_least(5) from start sizes 0,1,2,3,7,8,15,16", tiers=("quick", "thorough"), weight=2.0),
+        sweep("sweep-2x2", "c11_vector", (1, 2), sw2, what="every pair of two-call sequences over push_back / grow_by(2|5) / grow_to_at_least(9) from start sizes 0,1,6,14"),
+        sweep("sweep-throw", "c11_vector", (1, 2), thr, what="three growth calls, the first / second / third element construction throws, start sizes 0,1,7", weight=2.0),
+    ]
 PROPS["C11"] = {
     "explanation": "2-3 threads call push_back/emplace_back/grow_by/grow_to_at_least on one real concurrent_vector (tracking allocator, element type with "
                    "per-address construction counters) from start sizes 0, 1, 2, 3, 7, 8 (first-block election, embedded-table limit); oracle: returned ranges are "
@@ -125,10 +286,27 @@ PROPS["C11"] = {
         leg("alloc-fail2", "c11_vector", (2, 2), {"prog": "B|G9|B", "allocfail": 2, "pre": 2}, what="second allocation throws"),
         leg("alloc-fail-table", "c11_vector", (2, 2), {"prog": "G3|G9|B", "allocfail": 3, "pre": 6}, what="allocation failure around the long-table switch"),
         leg("segment-arithmetic", "c11_segarith", (0, 0), {}, flags=(), what="bijection of segment_index_of/segment_base/segment_size: all indices < 2^20, +-2 around every 2^k up to 2^63"),
-    ],
+    ] + _c11_sweeps(),
 }
 
 # ------------------------------------------------------------------------------------------------ C12
+def _c12_sweeps():
+    alpha = ["I7", "I8", "M7", "F7", "C7", "T"]
+    useful = lambda c: sum(o[0] in "IM" for th in c for o in th) >= 2
+    L = []
+    for kind in ("umap", "uset", "ummap", "umset"):
+        sw = [{"prog": prog_str(t), "kind": kind, "prekeys": pk} for pk in ("", "7", "3,9") for t in thread_programs(alpha, 3, 1, keep=useful)]
+        L.append(sweep("sweep-%s-3x1" % kind, "c12_assoc", (1, 2), sw, what="%s: every multiset of three single operations (at least two insertions) over insert/emplace/find/count/traversal on keys 7 and 8, from three initial contents" % kind,
+                       tiers=("quick", "thorough") if kind in ("umap", "ummap") else ("thorough",)))
+        sw = [{"prog": prog_str(t), "kind": kind, "hash": "const", "prekeys": "5"} for t in thread_programs(["I7", "I8", "I3", "F7", "T"], 2, 2, keep=useful)]
+        L.append(sweep("sweep-%s-2x2-const" % kind, "c12_assoc", (1, 2), sw, what="%s, constant hash: every pair of two-operation sequences with at least two insertions" % kind))
+    for kind in ("omap", "oset", "ommap", "omset"):
+        sw = [{"prog": prog_str(t), "kind": kind, "prekeys": pk, "lv": lv} for lv in ("1231", "3123", "2222") for pk in ("", "7", "3,9") for t in thread_programs(alpha, 3, 1, keep=useful)]
+        L.append(sweep("sweep-%s-3x1" % kind, "c12_assoc", (1, 2), sw, what="%s (skip list): same programs with three level assignments" % kind,
+                       tiers=("quick", "thorough") if kind in ("omap",) else ("thorough",), weight=2.0))
+        sw = [{"prog": prog_str(t), "kind": kind, "prekeys": "5", "lv": "2312"} for t in thread_programs(["I7", "I8", "I3", "F7", "T"], 2, 2, keep=useful)]
+        L.append(sweep("sweep-%s-2x2" % kind, "c12_assoc", (1, 2), sw, what="%s: every pair of two-operation sequences with at least two insertions" % kind))
+    return L
 PROPS["C12"] = {
     "explanation": "2-3 threads insert/emplace/find/count/contains and traverse one real container of each family (split-ordered hash list: unordered map/set/multimap/"
                    "multiset with identity and constant hashers, pre-filled to the bucket-doubling threshold; skip list: map/set/multimap/multiset instantiated with a "
@@ -150,7 +328,7 @@ PROPS["C12"] = {
         leg("oset-mixed", "c12_assoc", (2, 2), {"kind": "oset", "lv": "1312", "prekeys": "2,8", "prog": "I5,F5|I6|N6,T"}, what="set skip list"),
         leg("omset-equal", "c12_assoc", (2, 2), {"kind": "omset", "lv": "1312", "prekeys": "5", "prog": "I5|I5|C5,T"}, what="multiset skip list"),
         leg("cmap-stock", "c12_assoc", (2, 2), {"kind": "cmap", "prekeys": "3,9", "prog": "I7|I7|T"}, what="stock tbb::concurrent_map (own level generator, frozen clock)"),
-    ],
+    ] + _c12_sweeps(),
 }
 
 # ------------------------------------------------------------------------------------------------ C19
